@@ -686,6 +686,15 @@ pub fn judge(rt: &tokio::runtime::Runtime, r: &mut Report, case: &Case, features
     match judge_auth(&seen, &expect, &case.secrets) {
         None => r.held(format!("{}/{}/{}", case.payload_mode, case.op, verdict_name)),
         Some((kind, detail)) => {
+            // on a service that has served earlier requests: is it the request, or what came before it?
+            if session_active() && session_suspended(|| judge_auth(&run_auth(rt, &cfg, &case.req), &expect, &case.secrets).is_none()) {
+                r.violated(
+                    format!("C05/{kind}/only-on-a-service-that-served-earlier-requests"),
+                    json!({"kind": "case", "case": case, "expected": format!("{expect:?}"), "detail": detail, "request": case.req.to_json(), "earlier_requests_on_the_same_service": session_history(),
+                            "note": "a fresh service gives the expected verdict for this request; replaying the case alone will therefore hold"}),
+                );
+                return;
+            }
             let cause = if kind == "rejected-valid" {
                 // structural cause: the first hostile-but-legal feature of the request as sent
                 let feats = request_features(&case.req);
@@ -724,6 +733,11 @@ pub fn run(ctx: &RunCtx) -> i32 {
     let total = par_run(ctx.workers, n_base.div_ceil(per), |j, r| {
         let rt = new_runtime();
         let mut g = Rng::new(derive_seed(ctx.seed, "C05", j));
+        // every other job: all its requests (bases and mutants, two access keys, three regions, dates within +-5 min) go
+        // through ONE service instance per provider configuration instead of a fresh one each
+        if j % 2 == 1 {
+            session_begin();
+        }
         for _ in 0..per {
             let b = gen_base(&mut g, &secrets);
             let mode = if b.payload == UNSIGNED { "unsigned-payload" } else if b.req.body.is_empty() { "empty-digest" } else { "digest" };
@@ -751,6 +765,7 @@ pub fn run(ctx: &RunCtx) -> i32 {
                 judge(&rt, r, &case, &b.features);
             }
         }
+        r.count("requests_served_by_a_reused_service_instance", session_end());
     });
     finish(ctx, &meta, &total)
 }
